@@ -1,12 +1,24 @@
+/-
+C42 — helper lemmas (property theorems are in Props.lean).
+
+Technique: a list of length `n` is `List.ofFn f` for some `f : Fin n → ℚ`; every model function has an `ofFn` normal
+form, so the algebra is done with `Finset` sums over `Fin n`.  The branch lemmas (masking, counting) are list inductions.
+-/
 import Mathlib.Algebra.BigOperators.Fin
 import Mathlib.Algebra.BigOperators.Field
 import Mathlib.Algebra.Order.BigOperators.Group.Finset
 import Mathlib.Algebra.Order.Field.Rat
 import Mathlib.Data.List.OfFn
+import Mathlib.Data.Rat.Cast.Order
 import Mathlib.Tactic.FieldSimp
 import Mathlib.Tactic.Ring
 import Mathlib.Tactic.Linarith
 import Mathlib.Tactic.Positivity
+import Mathlib.Analysis.Calculus.Deriv.Inv
+import Mathlib.Analysis.Calculus.Deriv.Add
+import Mathlib.Analysis.Calculus.Deriv.Mul
+import Mathlib.Analysis.Calculus.Deriv.Prod
+import Mathlib.Analysis.Calculus.FDeriv.Comp
 import PorepyVerif.C42.Model
 
 namespace PorepyVerif.C42
@@ -259,5 +271,170 @@ theorem scatter_select (eps : ℚ) (he : 0 ≤ eps) (c : ℚ) :
         simpa using ih
       · simp only [quot, notVanished, List.map_cons, hpos, decide_true, select, scatter, List.zipWith_cons_cons] at ih ⊢
         simpa using ih
+
+/-- entry `[i][j]` of the Jacobian exactly as the code assembles it -/
+def dxnF {n} (x : Fin n → ℚ) (i j : Fin n) : ℚ :=
+  (if i = j then 1 else 0) / (∑ k, x k) - x i * 1 / ((∑ k, x k) * (∑ k, x k))
+
+theorem dxn_ofFn {n} (x : Fin n → ℚ) : dxn (List.ofFn x) = List.ofFn fun i => List.ofFn fun j => dxnF x i j := by
+  apply List.ext_getElem
+  · simp [dxn]
+  · intro i h1 h2
+    apply List.ext_getElem
+    · simp [dxn]
+    · intro j h3 h4
+      simp [dxn, dxnF, List.sum_ofFn, Fin.ext_iff]
+
+theorem vecMat_ofFn {m n} (g : Fin m → ℚ) (M : Fin m → Fin n → ℚ) :
+    vecMat (List.ofFn g) (List.ofFn fun i => List.ofFn (M i)) n = List.ofFn fun j => ∑ i, g i * M i j := by
+  induction m with
+  | zero =>
+    simp only [List.ofFn_zero, vecMat, univ_eq_empty, sum_empty]
+    apply List.ext_getElem <;> simp
+  | succ m ih =>
+    rw [List.ofFn_succ, List.ofFn_succ]
+    simp only [vecMat]
+    rw [ih (fun i => g i.succ) (fun i => M i.succ), List.map_ofFn, zipWith_ofFn, List.ofFn_inj]
+    funext j
+    simp [Fin.sum_univ_succ]
+
+/-- the chain-rule output in closed form: `g_j / S − (Σ_i g_i x_i) / S²` -/
+def chainTail {n} (x g : Fin n → ℚ) (j : Fin n) : ℚ := ∑ i, g i * dxnF x i j
+
+theorem chainTail_closed {n} (x g : Fin n → ℚ) (j : Fin n) :
+    chainTail x g j = g j / (∑ k, x k) - (∑ i, g i * x i) / ((∑ k, x k) * (∑ k, x k)) := by
+  unfold chainTail dxnF
+  have : ∀ i, g i * ((if i = j then 1 else 0) / (∑ k, x k) - x i * 1 / ((∑ k, x k) * (∑ k, x k)))
+      = (if i = j then g j / (∑ k, x k) else 0) - g i * x i / ((∑ k, x k) * (∑ k, x k)) := by
+    intro i; split
+    · subst_vars; ring
+    · ring
+  simp only [this, Finset.sum_sub_distrib, Finset.sum_ite_eq', mem_univ, if_true, ← Finset.sum_div]
+
+theorem chainrule1_ofFn {n} (pre : List ℚ) (x g : Fin n → ℚ) :
+    chainrule1 (pre ++ List.ofFn g) (List.ofFn x) = pre ++ List.ofFn (chainTail x g) := by
+  unfold chainrule1
+  simp only [List.length_append, List.length_ofFn, Nat.add_sub_cancel, List.take_left', List.drop_left', dxn_ofFn]
+  rw [vecMat_ofFn]
+  rfl
+
+
+/-- the normalised fractions along the coordinate line `x + t e_j` (real extension of the rational map) -/
+noncomputable def normLine {n} (x : Fin n → ℚ) (j : Fin n) (t : ℝ) : Fin n → ℝ :=
+  fun i => ((x i : ℝ) + if i = j then t else 0) / ((∑ k, (x k : ℝ)) + t)
+
+theorem normLine_hasDerivAt {n} (x : Fin n → ℚ) (hS : ∑ k, x k ≠ 0) (j : Fin n) :
+    HasDerivAt (normLine x j) (fun i => ((dxnF x i j : ℚ) : ℝ)) 0 := by
+  have hSr : (∑ k, (x k : ℝ)) ≠ 0 := by
+    have : ((∑ k, x k : ℚ) : ℝ) ≠ 0 := by exact_mod_cast hS
+    simpa using this
+  rw [hasDerivAt_pi]
+  intro i
+  set δ : ℝ := if i = j then 1 else 0 with hδ
+  have hnum : HasDerivAt (fun t : ℝ => (x i : ℝ) + δ * t) (δ * 1) 0 :=
+    ((hasDerivAt_id (0 : ℝ)).const_mul δ).const_add _
+  have hden : HasDerivAt (fun t : ℝ => (∑ k, (x k : ℝ)) + t) 1 0 := (hasDerivAt_id (0 : ℝ)).const_add _
+  have h := hnum.div hden (by simpa using hSr)
+  have hfun : (fun t : ℝ => normLine x j t i) = (fun t : ℝ => (x i : ℝ) + δ * t) / (fun t : ℝ => (∑ k, (x k : ℝ)) + t) := by
+    funext t
+    simp only [normLine, Pi.div_apply, hδ]
+    split <;> simp
+  rw [hfun]
+  refine h.congr_deriv ?_
+  simp only [dxnF, hδ]
+  push_cast
+  generalize (∑ k, (x k : ℝ)) = S at hSr
+  simp only [add_zero, mul_zero, mul_one]
+  split <;> field_simp <;> ring
+
+/-- **Chain rule.**  For ANY real function `f` of the normalised fractions that is differentiable at `x / Σx` with partial
+    derivatives `g`, the derivative of the composed function `x ↦ f (x / Σx)` with respect to `x_j` is the `j`-th entry
+    of what the code returns. -/
+theorem chainTail_is_derivative {n} (x g : Fin n → ℚ) (j : Fin n) (hS : ∑ k, x k ≠ 0)
+    (f : (Fin n → ℝ) → ℝ) (f' : (Fin n → ℝ) →L[ℝ] ℝ) (hf : HasFDerivAt f f' (normLine x j 0))
+    (hg : ∀ i, f' (Pi.single i 1) = (g i : ℝ)) :
+    HasDerivAt (fun t => f (normLine x j t)) ((chainTail x g j : ℚ) : ℝ) 0 := by
+  have h := hf.comp_hasDerivAt (0 : ℝ) (normLine_hasDerivAt x hS j)
+  refine HasDerivAt.congr_deriv h ?_
+  have hlin := (f' : (Fin n → ℝ) →ₗ[ℝ] ℝ).pi_apply_eq_sum_univ (fun i => ((dxnF x i j : ℚ) : ℝ))
+  simp only [ContinuousLinearMap.coe_coe] at hlin
+  rw [hlin]
+  unfold chainTail
+  push_cast
+  refine Finset.sum_congr rfl (fun i _ => ?_)
+  have he : (fun k : Fin n => if i = k then (1 : ℝ) else 0) = Pi.single i 1 := by
+    funext k
+    simp [Pi.single_apply, eq_comm]
+  rw [he, hg i, smul_eq_mul, mul_comm]
+
+/-- exact difference quotient of `x ↦ x_i / Σx` along `e_j` (what a finite-difference check measures):
+    it equals the coded Jacobian entry times `S / (S + h)` -/
+theorem dxnF_difference_quotient {n} (x : Fin n → ℚ) (i j : Fin n) (h : ℚ) (hS : ∑ k, x k ≠ 0)
+    (hSh : ∑ k, x k + h ≠ 0) :
+    (x i + if i = j then h else 0) / (∑ k, x k + h) - x i / ∑ k, x k
+      = h * (dxnF x i j * ((∑ k, x k) / (∑ k, x k + h))) := by
+  unfold dxnF
+  generalize (∑ k, x k) = S at hS hSh
+  split <;> field_simp <;> ring
+
+theorem sum_map_div (l : List ℚ) (c : ℚ) : (l.map (· / c)).sum = l.sum / c := by
+  induction l with
+  | nil => simp
+  | cons a l ih => simp [ih, add_div]
+
+theorem foldl_add_eq (l : List ℚ) (a : ℚ) : l.foldl (· + ·) a = a + l.sum := by
+  induction l generalizing a with
+  | nil => simp
+  | cons b l ih => simp [ih, add_assoc]
+
+theorem Admissible.ofFn {y rho : List ℚ} (h : Admissible y rho) :
+    ∃ (n : ℕ) (fy fr : Fin n → ℚ), y = List.ofFn fy ∧ rho = List.ofFn fr ∧
+      (∀ i, 0 ≤ fy i) ∧ ∑ i, fy i = 1 ∧ ∀ i, 0 < fr i := by
+  obtain ⟨hl, hy, hs, hr⟩ := h
+  obtain ⟨n, hn⟩ : ∃ n, y.length = n := ⟨_, rfl⟩
+  obtain ⟨fy, rfl⟩ := exists_ofFn y hn
+  obtain ⟨fr, rfl⟩ := exists_ofFn rho (hl.symm.trans hn)
+  exact ⟨n, fy, fr, rfl, rfl, List.forall_mem_ofFn_iff.mp hy, by rwa [List.sum_ofFn] at hs,
+    List.forall_mem_ofFn_iff.mp hr⟩
+
+theorem sat_nonneg_sum {y rho : List ℚ} (h : Admissible y rho) :
+    (∀ s ∈ sat y rho, 0 ≤ s) ∧ (sat y rho).sum = 1 := by
+  obtain ⟨n, fy, fr, rfl, rfl, hy, hs, hr⟩ := h.ofFn
+  have hW := W_pos fy fr hy hs hr
+  refine ⟨?_, ?_⟩
+  · rw [sat_ofFn, List.forall_mem_ofFn_iff]
+    intro j
+    exact div_nonneg (div_nonneg (hy j) (hr j).le) hW.le
+  · rw [sat_ofFn, List.sum_ofFn]
+    exact satF_sum fy fr hW.ne'
+
+theorem nSatStrict_le_one {s : List ℚ} {eps : ℚ} (he : eps < 1 / 2) (hn : ∀ v ∈ s, 0 ≤ v) (hs : s.sum = 1) :
+    ¬ 1 < nSatStrict s eps :=
+  not_lt.mpr ((nSatStrict_le_nSat s eps).trans (nSat_le_one s eps he hn hs))
+
+theorem forall₂_len {ys rhos : List (List ℚ)} {eps : ℚ}
+    (h : List.Forall₂ (fun y rho => Admissible y rho ∧ Margins y eps) ys rhos) :
+    ys.map List.length = rhos.map List.length := by
+  induction h with
+  | nil => rfl
+  | cons hd _ ih => simp [hd.1.len, ih]
+
+theorem forall₂_in {ys rhos : List (List ℚ)} {eps : ℚ}
+    (h : List.Forall₂ (fun y rho => Admissible y rho ∧ Margins y eps) ys rhos) :
+    ys.any (fun y => decide (1 < nSatStrict y eps)) = false := by
+  induction h with
+  | nil => rfl
+  | cons hd _ ih =>
+    rw [List.any_cons, ih, Bool.or_false]
+    simpa using nSatStrict_le_one hd.2.eps_small hd.1.nonneg hd.1.sum_one
+
+theorem forall₂_out {ys rhos : List (List ℚ)} {eps : ℚ}
+    (h : List.Forall₂ (fun y rho => Admissible y rho ∧ Margins y eps) ys rhos) :
+    (List.zipWith sat ys rhos).any (fun s => decide (1 < nSatStrict s eps)) = false := by
+  induction h with
+  | nil => rfl
+  | cons hd _ ih =>
+    rw [List.zipWith_cons_cons, List.any_cons, ih, Bool.or_false]
+    simpa using nSatStrict_le_one hd.2.eps_small (sat_nonneg_sum hd.1).1 (sat_nonneg_sum hd.1).2
 
 end PorepyVerif.C42
